@@ -441,6 +441,20 @@ class Body:
                     return cur
                 cur = {"l": ip["l"], "p": list(place_proj(ip)) + list(place_proj(cur))}
                 continue
+            if rv["k"] == "cast":
+                # Box deref lowering: `tmp = box.0.pointer as *const T; (*tmp)`  ==>  (*box)
+                ip = op_place(rv["o"])
+                if ip is None:
+                    return cur
+                proj = list(place_proj(ip))
+                stripped = False
+                while proj and proj[-1][0] == "f" and str(proj[-1][3]).startswith(("std::boxed::Box", "std::ptr::", "core::ptr::")):
+                    proj.pop()
+                    stripped = True
+                if not stripped:
+                    return cur
+                cur = {"l": ip["l"], "p": proj + list(place_proj(cur))}
+                continue
             return cur
         return cur
 
@@ -656,3 +670,58 @@ def arm_region(body, switch_bi, entry):
     h = loop_header_of(body, switch_bi)
     avoid = {h} if h is not None else set()
     return {b for b in body.reachable_from(entry, avoid=avoid) if not body.is_cleanup(b)}
+
+
+# -------------------------------------------------------------------- reaching definitions
+def reaching_defs(body):
+    """IN[block] = {local: frozenset(def ids)} with def id = (block, stmt index | 't'). Whole-local
+    definitions only (assignments without projection, call destinations); arguments have def ('arg', l)."""
+    n = len(body.blocks)
+    gen = [dict() for _ in range(n)]
+    for bi, b in enumerate(body.blocks):
+        g = {}
+        for si, s in enumerate(b["s"]):
+            if not place_proj(s["p"]):
+                g[s["p"]["l"]] = frozenset([(bi, si)])
+        t = b["t"]
+        if t["k"] == "call" and not place_proj(t["dest"]):
+            g[t["dest"]["l"]] = frozenset([(bi, "t")])
+        gen[bi] = g
+    IN = [None] * n
+    IN[0] = {l: frozenset([("arg", l)]) for l in range(1, body.nargs + 1)}
+    work = [0]
+    while work:
+        b = work.pop()
+        cur = IN[b] or {}
+        out = dict(cur)
+        out.update(gen[b])
+        for s in body.succs(b, unwind=False):
+            if IN[s] is None:
+                IN[s] = dict(out)
+                work.append(s)
+            else:
+                changed = False
+                tgt = IN[s]
+                for l, ds in out.items():
+                    old = tgt.get(l)
+                    if old is None:
+                        tgt[l] = ds
+                        changed = True
+                    elif not ds <= old:
+                        tgt[l] = old | ds
+                        changed = True
+                if changed:
+                    work.append(s)
+    return IN
+
+
+def defs_reaching(body, IN, bi, si, local):
+    """Definitions of `local` reaching the point just before statement si (or the terminator if si == 't') of block bi."""
+    cur = (IN[bi] or {}).get(local, frozenset())
+    blk = body.blocks[bi]
+    end = len(blk["s"]) if si == "t" else si
+    for j in range(end):
+        s = blk["s"][j]
+        if not place_proj(s["p"]) and s["p"]["l"] == local:
+            cur = frozenset([(bi, j)])
+    return cur
